@@ -51,7 +51,8 @@ def spec_strategy(methods=('nla', 'chic'), max_contigs=6, max_mols=14, extras=Tr
         ex = []
         if extras:
             kinds = ['unmapped_pair', 'unmapped_pair', 'r1_mapped_r2_unmapped', 'r1_unmapped_r2_mapped', 'orphan_r1',
-                     'orphan_r2', 'cross_contig', 'nomotif', 'nomotif', 'nomotif', 'single_unmapped']
+                     'orphan_r2', 'cross_contig', 'nomotif', 'nomotif', 'nomotif', 'single_unmapped', 'placed_unmapped_pair',
+                     'placed_unmapped_pair']
             for e in range(draw(st.integers(0, 8))):
                 tid = draw(st.integers(0, nc - 1))
                 ex.append({'kind': draw(st.sampled_from(kinds)), 'tid': tid, 'tid2': draw(st.integers(0, nc - 1)),
@@ -161,6 +162,10 @@ def realize(spec):
         if k == 'unmapped_pair':
             add_pair({'flag': 1 | 4 | 8 | 64, 'tid': -1, 'pos': -1, 'seq': s30},
                      {'flag': 1 | 4 | 8 | 128, 'tid': -1, 'pos': -1, 'seq': t30}, e['cell'], e['umi'], 'unmapped', None)
+        elif k == 'placed_unmapped_pair':
+            # both mates flagged unmapped but placed on a contig (e.g. alignments hanging over the contig edge)
+            add_pair({'flag': 1 | 4 | 8 | 64, 'tid': tid, 'pos': pos, 'seq': s30, 'mtid': tid, 'mpos': pos},
+                     {'flag': 1 | 4 | 8 | 128, 'tid': tid, 'pos': pos, 'seq': t30, 'mtid': tid, 'mpos': pos}, e['cell'], e['umi'], 'unmapped', None)
         elif k == 'single_unmapped':
             add_pair({'flag': 4, 'tid': -1, 'pos': -1, 'seq': s30}, None, e['cell'], e['umi'], 'unmapped', None)
         elif k == 'r1_mapped_r2_unmapped':
